@@ -1,8 +1,10 @@
+\* one run is both the model check of the classification (invariants over every
+\* generated line: no VIEW) and the generator (one T line per transition)
 CONSTANTS
   Stride = 1
   Stride2 = 24
   Seed <- EnvSeed
 INIT Init
 NEXT GenNext
-VIEW GenView
+INVARIANTS TypeOK Disjoint RouteAgrees BasesDeliver
 CHECK_DEADLOCK FALSE
